@@ -18,8 +18,10 @@ def analyse(ctx, cfg):
         return _cache[F.path]
     P = mirflow.Program(F)
     names = [n for n, r in P.runs.items() if r.body["span"]["f"] in C06_FILES or n in C06_EXTRA_FNS]
-    for rnd in range(3):
+    for rnd in range(4):
         changed = False
+        P.arg_obs = {}
+        P.arg_rel_obs = {}
         for n in names:
             r = P.runs[n]
             sites = r.run()
@@ -30,10 +32,28 @@ def analyse(ctx, cfg):
             if req != P.requires.get(n, {}):
                 P.requires[n] = req
                 changed = True
+            en = r.ensures_summary()
+            if en != P.ensures.get(n):
+                if en is None:
+                    P.ensures.pop(n, None)
+                else:
+                    P.ensures[n] = en
+                changed = True
             rr = getattr(r, "ret_range", None)
             if rr is not None and (rr[0] > -mirflow.INF or rr[1] < mirflow.INF) and P.ret_ranges.get(n) != rr and not os.environ.get("C06_NO_RETRANGE"):
                 P.ret_ranges[n] = rr
                 changed = True
+        # argument intervals seen at the call sites of private functions (all of them are analysed: a private function
+        # of a reader module is only callable from that module) bound their parameters in the next round
+        pr = {n_: {i: r_ for i, r_ in o.items() if r_[0] > -mirflow.INF or r_[1] < mirflow.INF} for n_, o in P.arg_obs.items()}
+        pr = {n_: o for n_, o in pr.items() if o and n_ in P.runs and P.runs[n_].body["span"]["f"] in C06_FILES}
+        if pr != P.param_ranges:
+            P.param_ranges = pr
+            changed = True
+        rl = {n_: frozenset(o) for n_, o in P.arg_rel_obs.items() if o and n_ in P.runs and P.runs[n_].body["span"]["f"] in C06_FILES}
+        if rl != P.param_rel:
+            P.param_rel = rl
+            changed = True
         if not changed:
             break
     # requirements are only discharged at analysed call sites: closures (called by iterator adaptors) and
@@ -78,10 +98,70 @@ WHY = {
 }
 
 
+_known = None
+
+
+def _known_fns():
+    global _known
+    if _known is None:
+        import json
+        try:
+            with open(os.path.join(os.path.dirname(os.path.dirname(os.path.abspath(__file__))), "tables", "known_fns.json")) as fh:
+                _known = set(json.load(fh)["fns"])
+        except OSError:
+            _known = set()
+    return _known
+
+
+def _strip_closure(n):
+    import re
+    return re.sub(r"::\{closure#\d+\}", "", n)
+
+
+def families(ctx, cfg):
+    """{new function: sorted known functions it is (transitively) called from}.  A function that is not in
+    tables/known_fns.json did not exist when the findings were triaged: its unproved sites are the sites of the
+    code that was moved into it, so they are matched against the sites that *disappeared* from its callers."""
+    P, runs = analyse(ctx, cfg)
+    known = _known_fns()
+    if not known:
+        return {}
+    callers = defaultdict(set)
+    for n, r in P.runs.items():
+        for b in r.blocks:
+            t = b.get("term")
+            if t and t.get("k") == "Call":
+                c = mirflow.norm(t.get("resolved") or t.get("callee")) or ""
+                callers[_strip_closure(c)].add(_strip_closure(n))
+            for st in b.get("stmts", []):
+                # a closure / fn item mentioned as a value (passed to an adaptor)
+                pass
+    fam = {}
+    for n in runs:
+        b = _strip_closure(n)
+        if b in known:
+            continue
+        seen, work, out = {b}, [b], set()
+        while work:
+            x = work.pop()
+            for c in callers.get(x, ()):
+                if c in seen:
+                    continue
+                seen.add(c)
+                if c in known:
+                    out.add(c)
+                else:
+                    work.append(c)
+        fam[b] = sorted(out)
+    return fam
+
+
 def r_mir(ctx, rep, kinds=("R-INDEX", "R-ARITH", "R-ALLOC", "R-AMP", "R-PANIC")):
     n_sites = 0
     seen_keys = set()
     for cfg in ctx.configs():
+        fam = families(ctx, cfg)
+        new_short = {f.rsplit("::", 1)[-1]: f for f in fam}
         for key, s, r in site_rows(ctx, cfg):
             if s.kind not in kinds:
                 continue
@@ -96,6 +176,13 @@ def r_mir(ctx, rep, kinds=("R-INDEX", "R-ARITH", "R-ALLOC", "R-AMP", "R-PANIC"))
             elif not s.tainted:
                 rep.holds(s.kind, key, s.where, "operands are not file-derived (out of scope): " + s.detail, nontrivial=False)
             else:
-                rep.violation(s.kind, key, s.where, "%s: %s.  %s" % (s.fn, s.detail, WHY[s.kind]))
+                facts = None
+                fnb = _strip_closure(key.split("|", 1)[0])
+                if fnb in fam:
+                    facts = {"new_fn": fnb, "family": fam[fnb]}
+                elif s.sig.startswith("call ") and s.sig.split(" ")[1] in new_short:
+                    # the constant length need of a new helper, reported at its call site in an existing function
+                    facts = {"new_fn": new_short[s.sig.split(" ")[1]], "family": [fnb]}
+                rep.violation(s.kind, key, s.where, "%s: %s.  %s" % (s.fn, s.detail, WHY[s.kind]), facts=facts)
     if n_sites < 300:
         rep.anchor_missing("R-MIR", "MIR sites in the reader modules (found %d)" % n_sites)
